@@ -510,3 +510,514 @@ def run_label_stream(ctx, n_names, n_copies, want_model=True):
                                        "detail": {**mt, "line": ln, "model": x, "real": y}})
     stats["samples"] = [{"name": n, "iterated": add_iteration_suffix(n)} for n in names[18:24]]
     return stats
+
+
+# ---------------------------------------------------------------------------------------------
+# stream `forestattr` (C18, C11): histories WITH attributes on Model/ForestAttr.lean — objects constructed from explicit
+# specs (integer-valued geometry / excitation / paths, style keyword arguments that leave the style lazily un-initialised),
+# tree operations, move / rotate / position= on objects and collections, attribute and style writes, copy(**kwargs) with
+# overrides, later mutations of originals and copies.  After every operation ALL objects are dumped on both sides: tree
+# links, every attribute value, the realised style view, whether `_style` exists / `_style_kwargs` is pending, and the
+# SHARING STRUCTURE: every container (`_position`, `_orientation`, `_polarization`, `_dimension`, `_moment`, `_pixel`,
+# `_style`) is printed as the index of its first occurrence in any dump of the history (real side: id() of the ultimate
+# base array / of the Rotation / of the style object, all kept alive), so a container that is written in place is told
+# from one that is replaced, and a container reachable from two objects would show the same index twice.  In addition
+# the real side checks after every operation that no two array attributes of any objects overlap in memory, and the
+# `*_all` views of every collection are compared with `Forest.flatAll`.
+
+CLS = ["Cuboid", "Circle", "Dipole", "Sphere", "Sensor", "Collection"]
+PALETTE = ["red", "green", "blue", "yellow", "black", "white"]
+ARR_ATTR = {3: "polarization", 4: "dimension", 5: "moment", 6: "pixel"}   # slot code -> attribute
+SCAL_ATTR = {0: "current", 1: "diameter", 2: "handedness"}
+CLS_ARRS = {0: [3, 4], 1: [], 2: [5], 3: [3], 4: [6], 5: []}
+CLS_SCAL = {0: [], 1: [0, 1], 2: [], 3: [1], 4: [2], 5: []}
+PROP_ATTR = {0: "opacity", 1: "color"}
+
+
+def _ivec(rng, lo=-4, hi=4):
+    return [rng.randint(lo, hi) for _ in range(3)]
+
+
+def gen_arr_value(rng, code):
+    if code == 4:  # dimension: positive
+        return [rng.randint(1, 5) for _ in range(3)]
+    if code == 6:  # pixel: (k,3) flattened
+        return [rng.randint(-3, 3) for _ in range(3 * rng.choice([1, 1, 2, 3]))]
+    return _ivec(rng)
+
+
+def gen_scal_value(rng, k):
+    if k == 1:
+        return rng.randint(1, 6)
+    if k == 2:
+        return rng.randint(0, 1)
+    return rng.randint(-5, 5)
+
+
+def gen_sdata(rng, p_label=0.5, p_prop=0.35):
+    d = {"label": None, "props": []}
+    if rng.random() < p_label:
+        d["label"] = gen_name(rng) if rng.random() < 0.5 else rng.choice(["x", "x_01", "obj9", "a_", "col_99"])
+    for k in (0, 1):
+        if rng.random() < p_prop:
+            d["props"].append([k, rng.randint(0, 1) if k == 0 else rng.randrange(len(PALETTE))])
+    return d
+
+
+def gen_spec(rng, kind):
+    cls = {"s": rng.choice([0, 1, 2, 3]), "e": 4, "c": 5}[kind]
+    n = rng.choice([1, 1, 1, 2, 3])
+    return {"kind": kind, "cls": cls, "pos": [_ivec(rng) for _ in range(n)],
+            "arrs": [[c, gen_arr_value(rng, c)] for c in CLS_ARRS[cls]],
+            "scal": [[k, gen_scal_value(rng, k)] for k in CLS_SCAL[cls]],
+            "skw": gen_sdata(rng) if rng.random() < 0.5 else {"label": None, "props": []}}
+
+
+def enc_sdata(d):
+    s = "0" if d["label"] is None else "1 " + enc(d["label"])
+    return s + f" {len(d['props'])}" + "".join(f" {k} {v}" for k, v in d["props"])
+
+
+def enc_ints(xs):
+    return f"{len(xs)}" + "".join(f" {int(x)}" for x in xs)
+
+
+def enc_vecs(vs):
+    return f"{len(vs)}" + "".join(f" {v[0]} {v[1]} {v[2]}" for v in vs)
+
+
+def enc_spec(sp):
+    return (f"{sp['kind']} {sp['cls']} {enc_vecs(sp['pos'])} {len(sp['arrs'])}" + "".join(f" {c} {enc_ints(v)}" for c, v in sp["arrs"])
+            + f" {len(sp['scal'])}" + "".join(f" {k} {v}" for k, v in sp["scal"]) + " " + enc_sdata(sp["skw"]))
+
+
+def style_kwargs_real(d):
+    kw = {}
+    if d["label"] is not None:
+        kw["style_label"] = d["label"]
+    for k, v in d["props"]:
+        kw["style_" + PROP_ATTR[k]] = v if k == 0 else PALETTE[v]
+    return kw
+
+
+def scal_real(k, v):
+    return ("left" if v else "right") if k == 2 else v
+
+
+def mk_attr(sp):
+    import magpylib as magpy
+    import numpy as np
+
+    kw = {"position": sp["pos"] if len(sp["pos"]) > 1 else sp["pos"][0]}
+    for c, v in sp["arrs"]:
+        kw[ARR_ATTR[c]] = np.array(v, dtype=float).reshape(-1, 3) if c == 6 and len(v) > 3 else list(v)
+    for k, v in sp["scal"]:
+        kw[SCAL_ATTR[k]] = scal_real(k, v)
+    kw.update(style_kwargs_real(sp["skw"]))
+    ctor = [magpy.magnet.Cuboid, magpy.current.Circle, magpy.misc.Dipole, magpy.magnet.Sphere, magpy.Sensor, magpy.Collection][sp["cls"]]
+    return ctor(**kw)
+
+
+class Canon:
+    """first-occurrence numbering of containers over a whole history (objects kept alive so that ids stay unique)"""
+
+    def __init__(self):
+        self.ix, self.keep = {}, []
+
+    def of(self, obj):
+        import numpy as np
+
+        if isinstance(obj, np.ndarray):
+            while obj.base is not None and isinstance(obj.base, np.ndarray):
+                obj = obj.base
+        k = id(obj)
+        if k not in self.ix:
+            self.ix[k] = len(self.ix)
+            self.keep.append(obj)
+        return self.ix[k]
+
+
+def dump_attr_real(objs, canon, as_lazy=()):
+    """`as_lazy`: objects whose style object was created as a side effect of the operation just run (repr() in an error
+    message evaluates `obj.style`); they are shown as they were before, the style reads follow as operations of their own"""
+    import numpy as np
+    from vlib.octa import fmt_mat, fmt_vec, snap_matrix, snap_vec
+
+    parts = []
+    for i, o in enumerate(objs):
+        cls = CLS.index(type(o).__name__)
+        line = f"{i} c{cls}"
+        pos = np.asarray(o._position)
+        line += f" [0@{canon.of(o._position)} v{len(pos)} " + " ".join(fmt_vec(snap_vec(v)) for v in pos) + "]"
+        m = o._orientation.as_matrix()
+        m = m[None] if m.ndim == 2 else m
+        line += f" [1@{canon.of(o._orientation)} r{len(m)} " + " ".join(fmt_mat(snap_matrix(x)) for x in m) + "]"
+        for c in (3, 4, 5, 6):
+            a = vars(o).get("_" + ARR_ATTR[c])
+            if a is not None:
+                flat = np.asarray(a).reshape(-1)
+                line += f" [{c}@{canon.of(a)} i{len(flat)} " + " ".join(str(int(x)) for x in snap_vec(flat)) + "]"
+        sc = []
+        for k in CLS_SCAL[cls]:
+            v = vars(o)["_" + SCAL_ATTR[k]]
+            sc.append(f"{k}={int(v == 'left') if k == 2 else int(snap_vec(np.array([v]))[0])}")
+        line += " S(" + " ".join(sc) + ")"
+        st = vars(o).get("_style")
+        hide = i in as_lazy
+        if hide:
+            line += " Y-"
+        else:
+            line += " Y-" if st is None else f" Y@{canon.of(st)}"
+        view = {"label": None, "opacity": None, "color": None}
+        if st is not None:
+            view = {"label": st.label, "opacity": st.opacity, "color": st.color}
+        pend = vars(o).get("_style_kwargs") or {}
+        view.update(pend)
+        lab = "none" if view["label"] is None else enc(view["label"])
+        p0 = "-" if view["opacity"] is None else str(int(view["opacity"]))
+        p1 = "-" if view["color"] is None else str(PALETTE.index(view["color"]))
+        line += f" K{int(bool(pend) or (hide and as_lazy[i]))} L {lab} p0={p0} p1={p1}"
+        parts.append(line)
+    return " | ".join(parts)
+
+
+def arrays_overlap(objs):
+    """no two ndarray attributes of any objects may overlap in memory (interval test on the occupied byte ranges)"""
+    import numpy as np
+
+    spans = []
+    for i, o in enumerate(objs):
+        for k, v in vars(o).items():
+            if isinstance(v, np.ndarray) and v.size:
+                lo = v.__array_interface__["data"][0]
+                spans.append((lo, lo + v.nbytes, i, k))
+    spans.sort()
+    for (a0, a1, i, k), (b0, b1, j, l) in zip(spans, spans[1:]):
+        if b0 < a1 and np.shares_memory(getattr(objs[i], k), getattr(objs[j], l)):
+            return f"object {i}.{k} and object {j}.{l} share memory"
+    return None
+
+
+def all_views_real(objs):
+    import magpylib as magpy
+
+    idx = {id(o): i for i, o in enumerate(objs)}
+    f = lambda xs: "[" + ", ".join(str(idx.get(id(x), "?")) for x in xs) + "]"
+    return "ok " + " | ".join(f"{i} A{f(o.children_all)} S{f(o.sources_all)} E{f(o.sensors_all)} L{f(o.collections_all)}"
+                             for i, o in enumerate(objs) if isinstance(o, magpy.Collection))
+
+
+def gen_pathin_vec(rng):
+    if rng.random() < 0.5:
+        return ["s", _ivec(rng)]
+    return ["v", [_ivec(rng) for _ in range(rng.choice([1, 1, 2, 3]))]]
+
+
+def gen_attr_op(rng, objs, children_of):
+    import magpylib as magpy
+
+    n = len(objs)
+    kinds = [kind_of(o) for o in objs]
+    x = rng.randrange(n)
+    colls = [i for i, k in enumerate(kinds) if k == "c"]
+    full = [c for c in colls if children_of.get(c)]
+    if full and rng.random() < 0.35:
+        x = rng.choice(full)  # operations on populated collections act on all descendants
+    populated = x in full
+    cls = CLS.index(type(objs[x]).__name__)
+    r = rng.random()
+    start = None if rng.random() < 0.5 else rng.randint(-4, 4)
+    if r < 0.22:
+        op = gen_op(rng, kinds, p_bad=0.03, children_of=children_of, p_copy=0.0)
+        return op
+    if r < 0.36:
+        return {"op": "amove", "x": x, "inp": gen_pathin_vec(rng), "start": start, "pop": populated}
+    if r < 0.50:
+        rot = ["s", rng.randrange(24)] if rng.random() < 0.5 else ["v", [rng.randrange(24) for _ in range(rng.choice([1, 2, 3]))]]
+        a = rng.random()
+        anchor = None if a < 0.4 else (0 if a < 0.5 else gen_pathin_vec(rng))
+        return {"op": "arot", "x": x, "rot": rot, "anchor": anchor, "start": start, "pop": populated}
+    if r < 0.57:
+        return {"op": "asetpos", "x": x, "val": [_ivec(rng) for _ in range(rng.choice([1, 1, 2, 3]))], "pop": populated}
+    if r < 0.63 and CLS_ARRS[cls]:
+        c = rng.choice(CLS_ARRS[cls])
+        return {"op": "asetarr", "x": x, "slot": c, "val": gen_arr_value(rng, c)}
+    if r < 0.67 and CLS_SCAL[cls]:
+        k = rng.choice(CLS_SCAL[cls])
+        return {"op": "asetscal", "x": x, "k": k, "val": gen_scal_value(rng, k)}
+    if r < 0.72:
+        return {"op": "alabel", "x": x, "val": gen_name(rng)}
+    if r < 0.77:
+        k = rng.choice([0, 1])
+        return {"op": "aprop", "x": x, "k": k, "val": rng.randint(0, 1) if k == 0 else rng.randrange(len(PALETTE))}
+    if n >= MAX_OBJS:
+        return {"op": "amove", "x": x, "inp": gen_pathin_vec(rng), "start": start}
+    # copy(**kwargs)
+    o = rng.choice(full) if full and rng.random() < 0.5 else rng.randrange(n)
+    ocls = CLS.index(type(objs[o]).__name__)
+    kw = []
+    if rng.random() < 0.3:
+        kw.append(["pos", [_ivec(rng) for _ in range(rng.choice([1, 1, 2, 3]))]])
+    for c in CLS_ARRS[ocls]:
+        if rng.random() < 0.35:
+            kw.append(["arr", c, gen_arr_value(rng, c)])
+    for k in CLS_SCAL[ocls]:
+        if rng.random() < 0.35:
+            kw.append(["scal", k, gen_scal_value(rng, k)])
+    if rng.random() < 0.3:
+        kw.append(["label", gen_name(rng)])
+    for k in (0, 1):
+        if rng.random() < 0.2:
+            kw.append(["sprop", k, rng.randint(0, 1) if k == 0 else rng.randrange(len(PALETTE))])
+    rng.shuffle(kw)
+    return {"op": "acopy", "o": o, "kw": kw}
+
+
+def enc_ov(ov):
+    if ov[0] == "pos":
+        return "pos " + enc_vecs(ov[1])
+    if ov[0] == "arr":
+        return f"arr {ov[1]} {enc_ints(ov[2])}"
+    if ov[0] == "scal":
+        return f"scal {ov[1]} {ov[2]}"
+    if ov[0] == "label":
+        return "label " + enc(ov[1])
+    return f"sprop {ov[1]} {ov[2]}"
+
+
+def attr_model_lines(h):
+    from corr.path_family import enc_pathin_rot, enc_pathin_vec, enc_start
+
+    lines = [f"forest ainit {len(h['specs'])} " + " ".join(enc_spec(sp) for sp in h["specs"]), "forest allviews"]
+    base = {"add", "remove", "parent", "children", "typed", "plus", "bad", "copy"}
+    for op in h["ops"]:
+        k = op["op"]
+        if k in base:
+            lines.append(model_lines({"kinds": [], "ops": [op]})[1])
+        elif k == "amove":
+            lines.append(f"forest amove {op['x']} {enc_pathin_vec(op['inp'])} {enc_start(op['start'])}")
+        elif k == "arot":
+            an = op["anchor"]
+            ea = "n" if an is None else ("s 0 0 0" if an == 0 else enc_pathin_vec(an))
+            lines.append(f"forest arot {op['x']} {enc_pathin_rot(op['rot'])} {ea} {enc_start(op['start'])}")
+        elif k == "asetpos":
+            lines.append(f"forest asetpos {op['x']} {enc_vecs(op['val'])}")
+        elif k == "asetarr":
+            lines.append(f"forest asetarr {op['x']} {op['slot']} {enc_ints(op['val'])}")
+        elif k == "asetscal":
+            lines.append(f"forest asetscal {op['x']} {op['k']} {op['val']}")
+        elif k == "alabel":
+            lines.append(f"forest alabel {op['x']} {enc(op['val'])}")
+        elif k == "aprop":
+            lines.append(f"forest aprop {op['x']} {op['k']} {op['val']}")
+        elif k == "arealise":
+            lines.append(f"forest arealise {op['x']}")
+        elif k == "acopy":
+            lines.append(f"forest acopy {op['o']} {len(op['kw'])}" + "".join(" " + enc_ov(ov) for ov in op["kw"]))
+        else:
+            raise ValueError(k)
+        lines.append("forest allviews")
+    return lines
+
+
+def copy_kwargs_real(kw):
+    import numpy as np
+
+    out = {}
+    for ov in kw:
+        if ov[0] == "pos":
+            out["position"] = ov[1] if len(ov[1]) > 1 else ov[1][0]
+        elif ov[0] == "arr":
+            out[ARR_ATTR[ov[1]]] = np.array(ov[2], dtype=float).reshape(-1, 3) if ov[1] == 6 and len(ov[2]) > 3 else list(ov[2])
+        elif ov[0] == "scal":
+            out[SCAL_ATTR[ov[1]]] = scal_real(ov[1], ov[2])
+        elif ov[0] == "label":
+            out["style_label"] = ov[1]
+        else:
+            out["style_" + PROP_ATTR[ov[1]]] = ov[2] if ov[1] == 0 else PALETTE[ov[2]]
+    return out
+
+
+def attr_real_lines(h, rng=None, n_ops=0):
+    """real side of one attributed history; operations are generated while running when `h['ops']` is None"""
+    import magpylib as magpy
+    import numpy as np
+    from corr.path_family import call_rotate
+    from magpylib._src.exceptions import MagpylibBadUserInput
+
+    objs = [mk_attr(sp) for sp in h["specs"]]
+    canon = Canon()
+    out = ["ok " + dump_real(objs) + " ## " + dump_attr_real(objs, canon), all_views_real(objs)]
+    fails, errs = [], []
+    lazy = h["ops"] is None
+    if lazy:
+        h["ops"] = []
+    j = -1
+    pending, hidden = [], {}  # style reads that a rejected tree operation performed (through repr() in its message)
+    tree_ops = {"add", "remove", "parent", "children", "typed", "plus", "bad"}
+    while True:
+        j += 1
+        if lazy:
+            if pending:
+                op = pending.pop(0)
+            elif j >= n_ops:
+                break
+            else:
+                idx = {id(o): i for i, o in enumerate(objs)}
+                ch = {i: [idx[id(x)] for x in o._children if id(x) in idx] for i, o in enumerate(objs) if isinstance(o, magpy.Collection)}
+                op = gen_attr_op(rng, objs, ch)
+            h["ops"].append(op)
+        else:
+            if j >= len(h["ops"]):
+                break
+            op = h["ops"][j]
+        k = op["op"]
+        bad = None
+        before_style = [(vars(o).get("_style") is None, bool(vars(o).get("_style_kwargs"))) for o in objs]
+        try:
+            if k in ("copy", "acopy"):
+                if not 0 <= op["o"] < len(objs):
+                    raise MagpylibBadUserInput("no such object")
+                orig = objs[op["o"]]
+                had_parent = orig._parent
+                op["lazy"] = vars(orig).get("_style") is None and bool(orig._style_kwargs)
+                op["untouched"] = vars(orig).get("_style") is None and not orig._style_kwargs
+                new = orig.copy(**copy_kwargs_real(op.get("kw", [])))
+                clones = preorder(new)
+                bad = copy_facts(orig, new, objs, clones)
+                if bad is None and orig._parent is not had_parent:
+                    bad = "copy() changed the parent of the original"
+                op["size"], op["first"], op["owned"] = len(clones), len(objs), had_parent is not None
+                objs.extend(clones)
+            elif k == "amove":
+                inp = op["inp"][1] if op["inp"][0] == "s" else np.array(op["inp"][1], dtype=float).reshape(-1, 3)
+                objs[op["x"]].move(inp, start="auto" if op["start"] is None else op["start"])
+            elif k == "arot":
+                call_rotate(objs[op["x"]], {**op, "form": "rotate"})
+            elif k == "asetpos":
+                objs[op["x"]].position = op["val"] if len(op["val"]) > 1 else op["val"][0]
+            elif k == "asetarr":
+                v = op["val"]
+                setattr(objs[op["x"]], ARR_ATTR[op["slot"]], np.array(v, dtype=float).reshape(-1, 3) if op["slot"] == 6 and len(v) > 3 else list(v))
+            elif k == "asetscal":
+                setattr(objs[op["x"]], SCAL_ATTR[op["k"]], scal_real(op["k"], op["val"]))
+            elif k == "alabel":
+                objs[op["x"]].style.label = op["val"]
+            elif k == "aprop":
+                setattr(objs[op["x"]].style, PROP_ATTR[op["k"]], op["val"] if op["k"] == 0 else PALETTE[op["val"]])
+            elif k == "arealise":
+                if not 0 <= op["x"] < len(objs):
+                    raise MagpylibBadUserInput("no such object")
+                _ = objs[op["x"]].style
+            elif k == "add" and "live" in op:
+                objs[op["c"]].add(objs[op["live"]].children, override_parent=op["ov"])
+            elif k == "add":
+                objs[op["c"]].add(*[objs[i] for i in op["objs"]], override_parent=op["ov"])
+            elif k == "remove":
+                objs[op["c"]].remove(*[objs[i] for i in op["objs"]], recursive=op["rec"], errors="raise" if op["raise"] else "ignore")
+            elif k == "parent":
+                objs[op["o"]].parent = None if op["p"] < 0 else objs[op["p"]]
+            elif k == "children":
+                objs[op["c"]].children = [objs[i] for i in op["objs"]]
+            elif k == "typed":
+                setattr(objs[op["c"]], {"s": "sources", "e": "sensors", "c": "collections"}[op["k"]], [objs[i] for i in op["objs"]])
+            elif k == "plus":
+                objs.append(objs[op["a"]] + objs[op["b"]])
+            elif k == "bad":
+                objs[op["c"]].add(3)
+            tag = "ok"
+        except MagpylibBadUserInput:
+            tag = "err"
+            errs.append(f"{k}:BadUserInput")
+        except Exception as e:  # noqa: BLE001
+            tag = "err"
+            errs.append(f"{k}:Foreign:{type(e).__name__}")
+        if k in tree_ops:
+            hidden = {i: kw for i, (was_none, kw) in enumerate(before_style) if was_none and vars(objs[i]).get("_style") is not None}
+            if lazy:
+                pending += [{"op": "arealise", "x": i} for i in hidden]
+        elif k == "arealise":
+            hidden.pop(op["x"], None)
+        else:
+            hidden = {}
+        as_lazy = hidden
+        try:
+            out.append(f"{tag} " + dump_real(objs) + " ## " + dump_attr_real(objs, canon, as_lazy))
+        except ValueError as e:
+            out.append(f"{tag} UNSNAPPABLE {e}")
+        try:
+            out.append(all_views_real(objs))
+        except Exception as e:  # noqa: BLE001
+            out.append(f"views raised {type(e).__name__}")
+        if bad is None:
+            bad = arrays_overlap(objs)
+        if bad:
+            fails.append((j, bad))
+            break
+    return out, fails, errs
+
+
+def run_attr_stream(ctx, n_hist, n_ops, want_model=True):
+    stats = {"histories": 0, "ops": 0, "op_kinds": {}, "err_kinds": {}, "disagreements": 0, "copies": 0, "copies_with_overrides": 0,
+             "override_kinds": {}, "copies_of_owned_objects": 0, "copies_of_lazy_style_originals": 0, "copies_of_styleless_originals": 0, "copied_tree_sizes": {},
+             "ops_after_copy_on_copy_side": 0, "ops_after_copy_on_original_side": 0, "ops_on_populated_collections": 0,
+             "max_objects": 0, "containers_seen": 0, "lines_compared": 0, "tolerance": "exact (integer data, octahedral rotations)"}
+    samples, failures = [], []
+    hists = []
+    for _ in range(n_hist):
+        kinds = gen_kinds(ctx.rng)
+        hists.append({"specs": [gen_spec(ctx.rng, k) for k in kinds], "ops": None})
+    reals = [attr_real_lines(h, ctx.rng, n_ops) for h in hists]
+    all_lines, spans = [], []
+    for h in hists:
+        ls = attr_model_lines(h)
+        spans.append((len(all_lines), len(all_lines) + len(ls)))
+        all_lines += ls
+    ml_all = run_driver(all_lines) if want_model else None
+    for h, (a, b), (rl, fails, errs) in zip(hists, spans, reals):
+        stats["histories"] += 1
+        n_done = (len(rl) - 2) // 2
+        stats["ops"] += n_done
+        clone_ids, orig_ids = set(), set()
+        for op in h["ops"][:n_done]:
+            kk = op["op"]
+            stats["op_kinds"][kk] = stats["op_kinds"].get(kk, 0) + 1
+            mentioned = [op[key] for key in ("c", "o", "p", "a", "b", "x") if key in op and isinstance(op[key], int)] + list(op.get("objs", []))
+            if clone_ids.intersection(mentioned):
+                stats["ops_after_copy_on_copy_side"] += 1
+            if orig_ids.intersection(mentioned):
+                stats["ops_after_copy_on_original_side"] += 1
+            if kk in ("copy", "acopy") and "size" in op:
+                stats["copies"] += 1
+                stats["copies_with_overrides"] += int(bool(op.get("kw")))
+                for ov in op.get("kw", []):
+                    stats["override_kinds"][ov[0]] = stats["override_kinds"].get(ov[0], 0) + 1
+                stats["copies_of_owned_objects"] += int(op["owned"])
+                stats["copies_of_lazy_style_originals"] += int(op.get("lazy", False))
+                stats["copies_of_styleless_originals"] += int(op.get("untouched", False))
+                stats["copied_tree_sizes"][str(op["size"])] = stats["copied_tree_sizes"].get(str(op["size"]), 0) + 1
+                clone_ids.update(range(op["first"], op["first"] + op["size"]))
+                orig_ids.add(op["o"])
+            stats["ops_on_populated_collections"] += int(bool(op.get("pop")))
+        for e in errs:
+            stats["err_kinds"][e] = stats["err_kinds"].get(e, 0) + 1
+        stats["max_objects"] = max(stats["max_objects"], rl[-2].count("|") // 2 + 1 if len(rl) >= 2 else 0)
+        stats["containers_seen"] += rl[-2].count("@") if len(rl) >= 2 else 0
+        if fails:
+            j, bad = fails[0]
+            failures.append({"key": "forestattr-fact:" + h["ops"][j]["op"], "desc": bad,
+                             "replay": {"specs": h["specs"], "ops": h["ops"][: j + 1]}})
+        if want_model:
+            ml = ml_all[a:b]
+            stats["lines_compared"] += min(len(ml), len(rl))
+            diff = next((j for j, (x, y) in enumerate(zip(ml, rl)) if x != y), None)
+            if diff is not None:
+                stats["disagreements"] += 1
+                if stats["disagreements"] <= 3:
+                    ctx.broken.append({"kind": "correspondence", "name": "forestattr",
+                                       "detail": {"specs": h["specs"], "ops": h["ops"][: max(0, (diff - 2) // 2 + 1)], "line": diff,
+                                                  "model": ml[diff], "real": rl[diff]}})
+            elif len(samples) < 2:
+                samples.append({"specs": h["specs"][:3], "ops": h["ops"][:3], "state_after_3": rl[min(6, len(rl) - 2)][:600]})
+    stats["samples"] = samples
+    return stats, failures
